@@ -378,6 +378,54 @@ def _y_for_lepton(energy, lepton, y0):
 
 
 # ---------------------------------------------------------------------------- correspondence (c): event tree
+class Bound(Exception):
+    """An implementation call sequence exceeded a size or time bound."""
+
+
+class Watchdog:
+    """Wall-clock guard (signal.setitimer): `with Watchdog(seconds)` raises Bound inside the block when it
+    runs longer; nests (the outer deadline stays armed).  Long single C calls cannot be interrupted, which is
+    why sizes are bounded separately after every implementation call."""
+    stack = []
+
+    def __init__(self, seconds, what="case"):
+        self.seconds, self.what = seconds, what
+
+    @staticmethod
+    def _fire(signum, frame):
+        import time
+        now = time.time()
+        due = [w for w in Watchdog.stack if w.deadline <= now + 1e-3]
+        w = due[0] if due else Watchdog.stack[-1]
+        raise (HarnessTimeout if w.what == "run" else Bound)("time bound of %.0f s for one %s exceeded" % (w.seconds, w.what))
+
+    @staticmethod
+    def _arm():
+        import signal
+        import time
+        if not Watchdog.stack:
+            signal.setitimer(signal.ITIMER_REAL, 0)
+            return
+        nxt = min(w.deadline for w in Watchdog.stack)
+        signal.signal(signal.SIGALRM, Watchdog._fire)
+        signal.setitimer(signal.ITIMER_REAL, max(nxt - time.time(), 0.01))
+
+    def __enter__(self):
+        import time
+        self.deadline = time.time() + self.seconds
+        Watchdog.stack.append(self)
+        Watchdog._arm()
+        return self
+
+    def __exit__(self, *a):
+        Watchdog.stack.remove(self)
+        Watchdog._arm()
+
+
+class HarnessTimeout(Exception):
+    pass
+
+
 class RefTree:
     """Independent reference: parent map and child lists kept by the harness."""
 
@@ -402,259 +450,424 @@ class RefTree:
 
 
 def lit_list(xs):
-    return "[" + "; ".join(str(x) for x in xs) + "]"
+    return "[" + "; ".join(lit_list(x) if isinstance(x, list) else str(x) for x in xs) + "]"
 
 
-def tree_history(rng, pp, max_nodes, fresh_only):
-    """Returns (model expression, expected answers (Coq text), python-side record, property failures)."""
-    made = {}
+class EventDriver:
+    """One real Event driven through recorded operations; every call is size-bounded."""
 
-    def particle(i):
-        if i not in made:
-            made[i] = pp.Particle(rng.choice(["nu_e", "nu_mu", "nu_tau", "e", "mu_plus"]), (0, 0, -i), (0, 0, 1), 1e6 + i,
-                                  interaction_model=pp.Interaction)
-        return made[i]
-    nroots = rng.choice([1, 1, 2, 3, 4, 0]) if not fresh_only else rng.choice([1, 1, 2, 3, 4])
-    next_id = nroots
+    def __init__(self, pp, rec):
+        self.pp, self.made, self.ident = pp, {}, {}
+        roots = rec["roots"]
+        self.ev = pp.Event(self.particle(0)) if rec.get("single_root") and len(roots) == 1 else pp.Event([self.particle(i) for i in roots])
+
+    def particle(self, i):
+        if i not in self.made:
+            o = self.pp.Particle(("nu_e", "nu_mu", "nu_tau", "e", "mu_plus")[i % 5], (0, 0, -i), (0, 0, 1), 1e6 + i,
+                                 interaction_model=self.pp.Interaction)
+            self.made[i] = o
+            self.ident[id(o)] = i
+        return self.made[i]
+
+    fresh = True      # maintained by run_ops: only fresh histories are inside the property
+
+    def cap(self):
+        # fresh particles: no accessor can return more particles than exist.  After a particle was re-added
+        # (outside the property) cycles are legitimate and level lists grow geometrically: generous cap, and
+        # exceeding it only ends the history
+        return 4 * len(self.made) + 8 if self.fresh else 5000
+
+    def ids(self, objs, what):
+        objs = list(objs) if not isinstance(objs, list) else objs
+        if len(objs) > self.cap():
+            raise Bound("%s returned %d particles, the event was given %d" % (what, len(objs), len(self.made)))
+        return [self.ident[id(o)] for o in objs]
+
+    def snapshot(self):
+        """Full state of the object: roots, flat list, child index lists (read directly, no method call)."""
+        ev = self.ev
+        if len(ev._all) > self.cap() or sum(len(c) for c in ev._children) > self.cap() or len(ev._children) > self.cap():
+            raise Bound("internal lists grew to %d particles / %d child indices for %d particles given to the event" % (
+                len(ev._all), sum(len(c) for c in ev._children), len(self.made)))
+        return ([self.ident[id(o)] for o in ev.roots], [self.ident[id(o)] for o in ev._all], [list(c) for c in ev._children])
+
+    # accessors, each returning a canonical answer
+    def children(self, p):
+        try:
+            return ("list", self.ids(self.ev.get_children(self.particle(p)), "get_children(%d)" % p))
+        except ValueError:
+            return "err"
+
+    def parent(self, p):
+        try:
+            r = self.ev.get_parent(self.particle(p))
+        except ValueError:
+            return "err"
+        return ("opt", None if r is None else self.ident[id(r)])
+
+    def level(self, k):
+        try:
+            return ("list", self.ids(self.ev.get_from_level(k), "get_from_level(%d)" % k))
+        except ValueError:
+            return "err"
+
+    def iterate(self):
+        out = []
+        for o in self.ev:
+            out.append(o)
+            if len(out) > self.cap():
+                raise Bound("iteration yields more than %d particles for %d given" % (self.cap(), len(self.made)))
+        return ("list", self.ids(out, "iteration"))
+
+    def length(self):
+        return ("nat", len(self.ev))
+
+    def add(self, parent, cs, form):
+        objs = [self.particle(c) for c in cs]
+        if form == "single" and len(objs) != 1:
+            form = "list"
+        arg = objs[0] if form == "single" else (tuple(objs) if form == "tuple" else objs)
+        try:
+            self.ev.add_children(self.particle(parent), arg)
+        except ValueError:
+            return "err"
+        return ("nat", len(self.ev))
+
+    def do(self, op):
+        k = op[0]
+        if k == "add":
+            return self.add(op[1], op[2], op[3])
+        if k == "children":
+            return self.children(op[1])
+        if k == "parent":
+            return self.parent(op[1])
+        if k == "level":
+            return self.level(op[1])
+        if k == "iter":
+            return self.iterate()
+        return self.length()
+
+
+def mirror_add(st, parent, cs):
+    """Python mirror of Model/EventTree.v add_children on a state (roots, all, children); None = rejected.
+    (The mirror itself is tied to the Coq model: the final state of every history is compared exactly.)"""
+    roots, al, ch = st
+    if parent not in al:
+        return None
+    pi = al.index(parent)
+    start = len(al)
+    ch2 = [list(c) for c in ch] + [[] for _ in cs]
+    ch2[pi] = ch2[pi] + list(range(start, start + len(cs)))
+    return (list(roots), al + list(cs), ch2)
+
+
+def answer_text(a):
+    if a == "err":
+        return "AErr"
+    if a[0] == "list":
+        return "AList %s" % lit_list(a[1])
+    if a[0] == "opt":
+        return "AOpt None" if a[1] is None else "AOpt (Some %d)" % a[1]
+    return "ANat %d" % a[1]
+
+
+def op_text(op):
+    k = op[0]
+    if k == "add":
+        return "HAdd %d %s" % (op[1], lit_list(op[2]))
+    if k == "children":
+        return "HAsk (QChildren %d)" % op[1]
+    if k == "parent":
+        return "HAsk (QParent %d)" % op[1]
+    if k == "level":
+        return "HAsk (QLevel (%d)%%Z)" % op[1]
+    return "HAsk QIter" if k == "iter" else "HAsk QLen"
+
+
+def gen_history(rng, max_nodes, fresh_only, shape):
+    """A recorded history (pure: which adds are accepted follows from which particles are in the event)."""
+    nroots = {"two_roots": 2, "chain": 1}.get(shape, rng.choice([1, 1, 2, 3, 4] if fresh_only else [1, 1, 2, 3, 4, 0]))
     roots = list(range(nroots))
-    single_root = nroots == 1 and rng.random() < 0.5
-    ev = pp.Event(particle(0)) if single_root else pp.Event([particle(i) for i in roots])
-    ref = RefTree(roots)
-    in_event = list(roots)
-    hops, answers, record, failures = [], [], {"roots": roots, "single_root": single_root, "ops": []}, []
-    ident = {}
-
-    def ids(objs):
-        return [ident[id(o)] for o in objs]
-
-    def refresh():
-        for k, v in made.items():
-            ident[id(v)] = k
+    next_id = nroots
+    present = list(roots)
+    kids = {r: [] for r in roots}
+    ops = []
     fresh = True
-    nops = rng.randint(4, 60)
-    for _ in range(nops):
+    for _ in range(rng.randint(4, 60)):
         x = rng.random()
-        refresh()
-        if x < 0.45 and len(ref.nodes) < max_nodes and (in_event or not fresh_only):
-            # add children
+        if x < (0.55 if shape != "random" else 0.45) and len(present) < max_nodes and (present or not fresh_only):
             y = rng.random()
-            if y < 0.08 or not in_event:
-                parent = next_id                 # a particle that is not in the event (its id is never used again)
-                next_id += 1
+            nonfirst = [c for p in present for c in kids.get(p, [])[1:]]
+            if (y < 0.08 and shape == "random") or not present:
+                parent, next_id = next_id, next_id + 1            # not in the event (id never used again)
+            elif shape == "chain" and y < 0.85:
+                parent = present[-1]
+            elif shape in ("second_sibling", "two_roots") and nonfirst and y < 0.75:
+                parent = rng.choice(nonfirst)                      # a non-first particle of its level gets children
+            elif shape == "two_roots" and y < 0.9:
+                parent = 1
             elif y < 0.55:
-                parent = in_event[-rng.randint(1, min(4, len(in_event)))]   # recent: nested trees
+                parent = present[-rng.randint(1, min(4, len(present)))]
             else:
-                parent = rng.choice(in_event)
-            form = rng.choice(["single", "list", "list", "tuple", "empty"])
-            k = {"single": 1, "empty": 0}.get(form, rng.randint(1, 4))
+                parent = rng.choice(present)
+            form = rng.choice(["single", "list", "list", "tuple", "empty"] if shape == "random" else ["single", "list", "list", "tuple"])
+            k = {"single": 1, "empty": 0}.get(form, rng.randint(1, 3 if shape == "chain" else 4))
             cs = list(range(next_id, next_id + k))
-            if not fresh_only and cs and in_event and rng.random() < 0.06:
-                cs[rng.randrange(len(cs))] = rng.choice(in_event)      # re-add an existing particle
+            if not fresh_only and cs and present and rng.random() < 0.06:
+                cs[rng.randrange(len(cs))] = rng.choice(present)
             next_id += k
-            objs = [particle(c) for c in cs]
-            refresh()
-            arg = objs[0] if form == "single" else (tuple(objs) if form == "tuple" else objs)
-            hops.append("HAdd %d %s" % (parent, lit_list(cs)))
-            record["ops"].append(["add", parent, cs, form])
-            try:
-                ev.add_children(particle(parent), arg)
-                answers.append("ANat %d" % len(ev))
-                if fresh and parent in ref.parent and not any(c in ref.parent for c in cs) and len(set(cs)) == len(cs):
-                    ref.add(parent, cs)
-                else:
+            ops.append(["add", parent, cs, form])
+            if parent in kids:
+                if any(c in kids for c in cs) or len(set(cs)) != len(cs):
                     fresh = False
-                in_event += cs
-            except ValueError:
-                answers.append("AErr")
-            refresh()
-        elif x < 0.60:
-            if in_event and rng.random() < 0.9:
-                p = rng.choice(in_event)
-            else:
-                p, next_id = next_id, next_id + 1
-            hops.append("HAsk (QChildren %d)" % p)
-            record["ops"].append(["children", p])
-            try:
-                r = ids(ev.get_children(particle(p)))
-                answers.append("AList %s" % lit_list(r))
-            except ValueError:
-                answers.append("AErr")
-        elif x < 0.75:
-            if in_event and rng.random() < 0.9:
-                p = rng.choice(in_event)
-            else:
-                p, next_id = next_id, next_id + 1
-            hops.append("HAsk (QParent %d)" % p)
-            record["ops"].append(["parent", p])
-            try:
-                r = ev.get_parent(particle(p))
-                refresh()
-                answers.append("AOpt None" if r is None else "AOpt (Some %d)" % ident[id(r)])
-            except ValueError:
-                answers.append("AErr")
-        elif x < 0.88:
-            lv = rng.choice([-1, 0, 0, 1, 1, 2, 2, 3, 4, 5, 7])
-            hops.append("HAsk (QLevel (%d)%%Z)" % lv)
-            record["ops"].append(["level", lv])
-            try:
-                answers.append("AList %s" % lit_list(ids(ev.get_from_level(lv))))
-            except ValueError:
-                answers.append("AErr")
-        elif x < 0.95:
-            hops.append("HAsk QIter")
-            record["ops"].append(["iter"])
-            answers.append("AList %s" % lit_list(ids(list(ev))))
+                for c in cs:
+                    kids.setdefault(c, [])
+                    kids[parent].append(c)
+                present += cs
         else:
-            hops.append("HAsk QLen")
-            record["ops"].append(["len"])
-            answers.append("ANat %d" % len(ev))
-        if fresh and not failures and (rng.random() < 0.12):
-            refresh()
-            failures += tree_property(ev, ref, particle, ident)
-    if fresh and not failures:
-        refresh()
-        failures += tree_property(ev, ref, particle, ident)
-    init = "init %s" % lit_list(roots)
-    expr = "run_history (%s) [%s]" % (init, "; ".join(hops))
-    record["fresh"] = fresh
-    return expr, "[" + "; ".join(answers) + "]", record, failures
+            z = rng.random()
+            if present and rng.random() < 0.9:
+                p = rng.choice(present)
+            else:
+                p, next_id = next_id, next_id + 1
+            if z < 0.25:
+                ops.append(["children", p])
+            elif z < 0.5:
+                ops.append(["parent", p])
+            elif z < 0.82:
+                ops.append(["level", rng.choice([-1, 0, 0, 1, 1, 2, 2, 3, 3, 4, 5, 7])])
+            elif z < 0.93:
+                ops.append(["iter"])
+            else:
+                ops.append(["len"])
+    return {"roots": roots, "single_root": nroots == 1 and rng.random() < 0.5, "ops": ops, "fresh": fresh, "shape": shape}
 
 
-def tree_property(ev, ref, particle, ident):
-    """The property as stated, judged with the harness's own reference tree (fresh particles only)."""
+def tree_property(d, ref, watch_state=True):
+    """The property as stated, judged with the harness's own reference tree (fresh particles only).
+    With watch_state every accessor call is also required to leave (roots, _all, _children) unchanged;
+    the first accessor that changes it is reported together with its first visible consequence."""
     bad = []
-    it = [ident[id(o)] for o in ev]
+    s0 = d.snapshot() if watch_state else None
+
+    def unchanged(label):
+        if watch_state and not bad and d.snapshot() != s0:
+            after = d.snapshot()
+            later = tree_property(d, ref, watch_state=False)
+            bad.append("the read %s changed the state of the event from %s to %s%s" % (
+                label, list(s0), list(after), ("; afterwards " + later[0]) if later else ""))
+            return False
+        return True
+    it = d.iterate()[1]
+    if not unchanged("iteration"):
+        return bad
     if sorted(it) != sorted(ref.nodes) or len(set(it)) != len(it):
         bad.append("iteration returns %s, the event holds %s (each exactly once expected)" % (it, sorted(ref.nodes)))
-    if len(ev) != len(ref.nodes):
-        bad.append("len(event)=%d, %d particles were added" % (len(ev), len(ref.nodes)))
+    if d.length()[1] != len(ref.nodes):
+        bad.append("len(event)=%d, %d particles were added" % (d.length()[1], len(ref.nodes)))
     for q in ref.nodes:
-        ch = [ident[id(o)] for o in ev.get_children(particle(q))]
-        if sorted(ch) != sorted(ref.children[q]) or len(set(ch)) != len(ch):
+        ch = d.children(q)
+        if not unchanged("get_children(%d)" % q):
+            return bad
+        ch = ch[1] if ch != "err" else None
+        if ch is None or sorted(ch) != sorted(ref.children[q]) or len(set(ch)) != len(ch):
             bad.append("get_children(%d)=%s, expected the set %s" % (q, ch, ref.children[q]))
-        par = ev.get_parent(particle(q))
-        par = None if par is None else ident[id(par)]
-        if par != ref.parent[q]:
-            bad.append("get_parent(%d)=%s, expected %s" % (q, par, ref.parent[q]))
-        for c in ch:
-            pc = ev.get_parent(particle(c))
-            if pc is None or ident[id(pc)] != q:
-                bad.append("%d is in get_children(%d) but get_parent(%d)=%s" % (c, q, c, None if pc is None else ident[id(pc)]))
+        par = d.parent(q)
+        if not unchanged("get_parent(%d)" % q):
+            return bad
+        if par == "err" or par[1] != ref.parent[q]:
+            bad.append("get_parent(%d)=%s, expected %s" % (q, par if par == "err" else par[1], ref.parent[q]))
+        for c in ch or []:
+            pc = d.parent(c)
+            if pc == "err" or pc[1] != q:
+                bad.append("%d is in get_children(%d) but get_parent(%d)=%s" % (c, q, c, pc if pc == "err" else pc[1]))
+        if len(bad) > 3:
+            return bad[:3]
     seen = []
-    lv = 0
-    while True:
-        l = [ident[id(o)] for o in ev.get_from_level(lv)]
-        if sorted(l) != sorted(ref.level(lv)):
+    for lv in range(len(ref.nodes) + 2):
+        l = d.level(lv)
+        if not unchanged("get_from_level(%d)" % lv):
+            return bad
+        l = l[1] if l != "err" else None
+        if l is None or sorted(l) != sorted(ref.level(lv)):
             bad.append("get_from_level(%d)=%s, expected the set %s" % (lv, l, ref.level(lv)))
-        if not l or lv > len(ref.nodes) + 1:
+            break
+        if not l:
             break
         seen += l
-        lv += 1
-    if sorted(seen) != sorted(ref.nodes):
+    if not bad and sorted(seen) != sorted(ref.nodes):
         bad.append("levels do not partition the particles: levels give %s, event holds %s" % (sorted(seen), sorted(ref.nodes)))
-    if [ident[id(o)] for o in ev.get_from_level(0)] != ref.roots:
+    l0 = d.level(0)
+    if l0 == "err" or l0[1] != ref.roots:
         bad.append("level 0 is not the roots")
     return bad[:3]
 
 
-def run_record(pp, rec):
-    """Execute a recorded history on a real Event; first failure of the property (fresh histories) or None."""
-    made = {}
+def run_ops(pp, rec, seconds=20.0, battery=True):
+    """Execute a recorded history on a real Event.  After EVERY operation (reads included): the full state
+    (roots, _all, _children) is recorded, a read must leave it unchanged, and (fresh histories) every accessor
+    is compared with the reference tree.  Returns (answers, states, failure text or None)."""
+    answers, states, failure = [], [], None
+    step = -1
+    fresh = True
+    try:
+        with Watchdog(seconds, "history"):
+            d = EventDriver(pp, rec)
+            ref = RefTree(rec["roots"])
+            fresh = True
+            present = set(rec["roots"])
+            before = d.snapshot()
+            for step, op in enumerate(rec["ops"]):
+                a = d.do(op)
+                after = d.snapshot()
+                answers.append(a)
+                states.append(after)
+                if op[0] == "add":
+                    want = mirror_add(before, op[1], op[2])
+                    if (want is None) != (a == "err") or (want is not None and tuple(want) != tuple(after)) or (want is None and after != before):
+                        failure = failure or ("step %d: after %s the state (roots, _all, _children) is %s, the model gives %s" % (
+                            step, op, list(after), "ValueError and no change" if want is None else list(want)))
+                    if a != "err":
+                        if op[1] not in present:
+                            failure = failure or "step %d: add_children(%d, %s) was accepted although %d is not in the event" % (step, op[1], op[2], op[1])
+                            fresh = False
+                        elif fresh and not any(c in present for c in op[2]) and len(set(op[2])) == len(op[2]):
+                            ref.add(op[1], op[2])
+                        else:
+                            fresh = False
+                        d.fresh = fresh
+                        present.update(op[2])
+                    elif op[1] in present:
+                        failure = failure or "step %d: add_children(%d, %s) raised ValueError although %d is in the event" % (step, op[1], op[2], op[1])
+                elif after != before:
+                    failure = failure or ("step %d: the read operation %s changed the state of the event: roots/_all/_children were %s and are %s" % (
+                        step, op, list(before), list(after)))
+                if battery and fresh and not failure:
+                    bad = tree_property(d, ref)
+                    after2 = d.snapshot()
+                    if bad:
+                        failure = "after step %d (%s): %s" % (step, op, bad[0])
+                    elif after2 != after:
+                        failure = "after step %d (%s): reading every accessor changed the state of the event: %s -> %s" % (step, op, list(after), list(after2))
+                if failure:
+                    break
+                before = d.snapshot()
+    except Bound as e:
+        if fresh:
+            failure = failure or "step %d (%s): %s" % (step, rec["ops"][step] if 0 <= step < len(rec["ops"]) else "init", e)
+        else:
+            # a re-added particle made a cycle: outside the property; keep the executed prefix only
+            del rec["ops"][len(answers):]
+            rec["truncated"] = str(e)
+    except HarnessTimeout:
+        raise
+    except Exception as e:
+        failure = failure or "step %d (%s): raised %r" % (step, rec["ops"][step] if 0 <= step < len(rec["ops"]) else "init", e)
+    return answers, states, failure
 
-    def particle(i):
-        if i not in made:
-            made[i] = pp.Particle("nu_e", (0, 0, -i), (0, 0, 1), 1e6 + i, interaction_model=pp.Interaction)
-        return made[i]
-    roots = rec["roots"]
-    ev = pp.Event(particle(0)) if rec.get("single_root") and len(roots) == 1 else pp.Event([particle(i) for i in roots])
-    ref = RefTree(roots)
-    for o in rec["ops"]:
-        if o[0] != "add":
-            continue
-        parent, cs, form = o[1], o[2], o[3]
-        if form == "single" and len(cs) != 1:
-            form = "list"
-        objs = [particle(c) for c in cs]
-        try:
-            ev.add_children(particle(parent), objs[0] if form == "single" else (tuple(objs) if form == "tuple" else objs))
-        except ValueError:
-            if parent in ref.parent:
-                return "add_children(%d, %s) raised ValueError although %d is in the event" % (parent, cs, parent)
-            continue
-        if parent not in ref.parent:
-            return "add_children(%d, %s) was accepted although %d is not in the event" % (parent, cs, parent)
-        if any(c in ref.parent for c in cs) or len(set(cs)) != len(cs):
-            return None          # not a fresh history: outside the property
-        ref.add(parent, cs)
-        ident = {id(v): k for k, v in made.items()}
-        bad = tree_property(ev, ref, particle, ident)
-        if bad:
-            return bad[0]
-    return None
 
+def shrink_record(pp, rec, budget=15.0):
+    """Greedy minimisation of a failing history (drop operations, then children), time-bounded."""
+    import time
+    t0 = time.time()
+    cur = dict(rec)
 
-def shrink_record(pp, rec):
-    """Greedy minimisation of a failing history (drop operations, then children)."""
-    cur = {"roots": rec["roots"], "single_root": rec.get("single_root", False), "ops": [o for o in rec["ops"] if o[0] == "add"]}
-    if run_record(pp, cur) is None:
+    def fails(r):
+        return run_ops(pp, r, seconds=10.0)[2] is not None
+    if not fails(cur):
         return rec
     changed = True
-    while changed:
+    while changed and time.time() - t0 < budget:
         changed = False
         for i in range(len(cur["ops"]) - 1, -1, -1):
+            if time.time() - t0 > budget:
+                break
             cand = dict(cur, ops=cur["ops"][:i] + cur["ops"][i + 1:])
-            if run_record(pp, cand) is not None:
+            if fails(cand):
                 cur, changed = cand, True
         for i in range(len(cur["ops"])):
             o = cur["ops"][i]
+            if o[0] != "add" or time.time() - t0 > budget:
+                continue
             for j in range(len(o[2]) - 1, -1, -1):
                 no = [o[0], o[1], o[2][:j] + o[2][j + 1:], "list" if o[3] == "single" else o[3]]
                 cand = dict(cur, ops=cur["ops"][:i] + [no] + cur["ops"][i + 1:])
-                if run_record(pp, cand) is not None:
+                if fails(cand):
                     cur, changed, o = cand, True, no
     return cur
 
 
 def corr_tree(ctx, pp, escalate):
+    import time
     rng = ctx.rng
     ntrees = ctx.n(300, 6000) * (3 if escalate else 1)
+    budget = ctx.n(30.0, 240.0)
+    t0 = time.time()
     exprs, expect, records = [], [], []
-    dist = {"histories": ntrees, "ops": 0, "adds": 0, "rejected_adds": 0, "non_fresh_histories": 0, "max_nodes": 0, "forms": {}}
+    dist = {"histories": 0, "ops": 0, "adds": 0, "reads": 0, "rejected_adds": 0, "non_fresh_histories": 0, "shapes": {}, "forms": {},
+            "state_comparisons": 0, "witnesses": 0}
     for i in range(ntrees):
+        if time.time() - t0 > budget:
+            dist["stopped_after_budget_s"] = budget
+            break
         fresh_only = rng.random() < 0.6
-        expr, exp, rec, failures = tree_history(rng, pp, ctx.n(40, 60), fresh_only)
-        exprs.append(expr)
-        expect.append(exp)
-        records.append(rec)
+        shape = rng.choice(["random", "random", "random", "chain", "second_sibling", "second_sibling", "two_roots"])
+        rec = gen_history(rng, ctx.n(40, 60), fresh_only, shape)
+        answers, states, failure = run_ops(pp, rec)
+        dist["histories"] += 1
+        dist["shapes"][shape] = dist["shapes"].get(shape, 0) + 1
         dist["ops"] += len(rec["ops"])
         dist["adds"] += sum(1 for o in rec["ops"] if o[0] == "add")
+        dist["reads"] += sum(1 for o in rec["ops"] if o[0] != "add")
         dist["non_fresh_histories"] += 0 if rec["fresh"] else 1
+        dist["rejected_adds"] += sum(1 for o, a in zip(rec["ops"], answers) if o[0] == "add" and a == "err")
+        dist["state_comparisons"] += len(states)
         for o in rec["ops"]:
             if o[0] == "add":
                 dist["forms"][o[3]] = dist["forms"].get(o[3], 0) + 1
-        dist["rejected_adds"] += exp.count("AErr")
-        if failures and dist.get("witnesses", 0) < 3:
-            dist["witnesses"] = dist.get("witnesses", 0) + 1
-            small = shrink_record(pp, rec)
-            what = run_record(pp, small) or failures[0]
-            ctx.fail("tree:%s" % json.dumps(small, sort_keys=True)[:300],
-                     "event tree inconsistent after the add_children history %s: %s" % (json.dumps(small)[:500], what),
-                     {"kind": "tree", "history": small, "what": [what], "found_in": rec})
+        if failure:
+            if dist["witnesses"] < 3:
+                dist["witnesses"] += 1
+                small = shrink_record(pp, rec)
+                what = run_ops(pp, small, seconds=10.0)[2] or failure
+                ctx.fail("tree:%s" % json.dumps({k: small[k] for k in ("roots", "single_root", "ops")}, sort_keys=True)[:300],
+                         "event tree inconsistent: history %s (roots %s): %s" % (json.dumps(small["ops"])[:500], small["roots"], what[:700]),
+                         {"kind": "tree", "history": small, "what": [what], "found_in": rec})
+            if dist["witnesses"] >= 3 and sum(1 for r in records) > 20:
+                break
+            continue           # the implementation's answers are not comparable beyond the failure
+        # model: the same interleaved history with the full state observed after every operation
+        hops, exp = [], []
+        for o, a in zip(rec["ops"], answers):
+            hops.append(op_text(o))
+            exp.append(answer_text(a))
+        if states:
+            st = states[-1]
+            hops.append("HAsk QState")
+            exp.append("AState %s %s %s" % (lit_list(st[0]), lit_list(st[1]), lit_list(st[2])))
+        exprs.append("first_mismatch (run_history (init %s) [%s]) [%s] 0" % (lit_list(rec["roots"]), "; ".join(hops), "; ".join(exp)))
+        expect.append("[" + "; ".join(exp) + "]")
+        records.append((rec, "run_history (init %s) [%s]" % (lit_list(rec["roots"]), "; ".join(hops))))
     imports = "From Coq Require Import List ZArith.\nFrom PyrexModel Require Import EventTree.\nImport ListNotations.\n"
-    vals = ctx.coq_eval_exprs(imports, exprs, chunk=200)
+    vals = ctx.coq_eval_exprs(imports, exprs, chunk=200) if exprs else []
     bad = 0
-    for v, e, rec in zip(vals, expect, records):
+    for v, e, (rec, full) in zip(vals, expect, records):
         ctx.case(key=json.dumps(rec, sort_keys=True), nontrivial=len(rec["ops"]) > 3,
-                 sample={"history": rec, "model": v[:300], "impl": e[:300]})
-        if common.norm_coq(v) != common.norm_coq(e):
+                 sample={"history": rec, "first_mismatch": v, "impl": e[:300]})
+        if common.norm_coq(v) != "None":
             bad += 1
             if bad <= 3:
-                ctx.oblige("corr:tree:history", False, "Event and Model/EventTree.v disagree on history %s: implementation %s model %s" % (
-                    json.dumps(rec)[:600], e[:500], v[:500]))
-                ctx.extra.setdefault("tree_disagreements", []).append({"history": rec, "impl": e, "model": v})
-    ctx.oblige("corr:tree(%d histories)" % len(exprs), bad == 0, "%d histories disagree" % bad)
+                try:
+                    mv = ctx.coq_eval_exprs(imports, [full])[0]
+                except Exception as ex:
+                    mv = repr(ex)[:300]
+                ctx.oblige("corr:tree:history", False, "Event and Model/EventTree.v disagree (first differing answer: %s; answers alternate operation / state) on history %s: implementation %s model %s" % (
+                    v, json.dumps(rec)[:600], e[:600], mv[:600]))
+                ctx.extra.setdefault("tree_disagreements", []).append({"history": rec, "impl": e, "model": mv})
+    ctx.oblige("corr:tree(%d histories, state compared after every operation)" % len(exprs), bad == 0 and (len(exprs) > 0 or dist["witnesses"] > 0),
+               "%d histories disagree" % bad)
     ctx.extra["corr_tree_distribution"] = dist
-    return bad == 0
+    return bad == 0 and dist["witnesses"] == 0
 
 
 # ---------------------------------------------------------------------------- probes on the implementation
@@ -1106,6 +1319,12 @@ def ks_probes(ctx, pp):
 
 # ---------------------------------------------------------------------------- entry points
 def run(ctx):
+    # a check always terminates with a verdict: overall deadline (raises HarnessTimeout -> reported by main)
+    with Watchdog(ctx.n(420.0, 1700.0), "run"):
+        _run(ctx)
+
+
+def _run(ctx):
     import pyrex.particle as pp
     ctx.rule = ("formula correspondence: (model, neutrino type, energy in 1e3..1e12 GeV incl. both ends, forced/chosen interaction type, secondaries on/off, "
                 "scripted uniform + Poisson streams incl. 0, 2^-53, 1-2^-53 and draws that make energy conservation reject tries); non-trivial = distinct tuples; "
@@ -1212,30 +1431,11 @@ def replay(ctx, obj):
         return 1
     if k == "tree":
         rec = obj["history"]
-        made = {}
-
-        def particle(i):
-            if i not in made:
-                made[i] = pp.Particle("nu_e", (0, 0, -i), (0, 0, 1), 1e6 + i, interaction_model=pp.Interaction)
-            return made[i]
-        ev = pp.Event(particle(0)) if rec["single_root"] else pp.Event([particle(i) for i in rec["roots"]])
-        for o in rec["ops"]:
-            if o[0] == "add":
-                objs = [particle(c) for c in o[2]]
-                try:
-                    ev.add_children(particle(o[1]), objs[0] if o[3] == "single" else (tuple(objs) if o[3] == "tuple" else objs))
-                except ValueError as e:
-                    print("add", o[1:], "->", e)
-        ident = {id(v): kk for kk, v in made.items()}
-        print("implementation iter:", [ident[id(x)] for x in ev], "len", len(ev))
-        for q in sorted(made):
-            try:
-                par = ev.get_parent(particle(q))
-                print(q, "children", [ident[id(x)] for x in ev.get_children(particle(q))], "parent", None if par is None else ident[id(par)])
-            except ValueError:
-                pass
-        print("recorded failures:", obj.get("what"))
-        return 1
+        answers, states, failure = run_ops(pp, rec)
+        for o, a_, st in zip(rec["ops"], answers, states):
+            print(o, "->", a_, " state:", st)
+        print("implementation:", failure or "history consistent")
+        return 1 if failure else 0
     if k == "secondary":
         inter = pp.GQRSInteraction.__new__(pp.GQRSInteraction)
         inter.particle = pp.Particle(obj["pid"], (0, 0, 0), (0, 0, 1), 1e9, interaction_model=pp.Interaction)
